@@ -1100,3 +1100,13 @@ Section GenerateLoop.
         end
     end.
 End GenerateLoop.
+
+(* every plugin's contents fed to the file manager, plugin after plugin (specification of a run
+   in which every plugin answers without error) *)
+Fixpoint feed_all (m : fm) (rs : list response) : FileManager.res fm :=
+  match rs with
+  | [] => FileManager.Ok m
+  | r :: rest => match feed m (map to_gen (get_list (rs_contents r))) with
+                 | FileManager.Ok m' => feed_all m' rest
+                 | e => e end
+  end.
